@@ -609,9 +609,13 @@ class C02(Property):
                 add(c, part="shapes", cubic=True, module="defcon", needs_cubic=True)
             eu = [c["err"], c["upm"]]
             if eu in b["trie_errupm"]:
+                shapes = trie_shapes(c, TRIE_SHAPES)
+                # depth 2: all roots packed in one font; deeper: one root per font (short states)
+                packs = [shapes] if b["trie_depth"] <= 2 else [[s] for s in shapes]
                 for variant in VARIANTS:
-                    add(c, part="trie", variant=variant, shapes=trie_shapes(c, TRIE_SHAPES),
-                        d=b["trie_depth"], palette=b["palette"], module="ufoLib2")
+                    for pack in packs:
+                        add(c, part="trie", variant=variant, shapes=pack,
+                            d=b["trie_depth"], palette=b["palette"], module="ufoLib2")
             for key in ("deep", "deep4"):
                 dp = b.get(key)
                 if not dp or eu not in dp.get("errupm", [[None, 1000]]):
